@@ -136,6 +136,17 @@ def gen_sig_case(rng, idx):
     return dict(script=script, stack=[], flags=fl, sv=TAPSCRIPT, k=k, toks=toks, weight=W)
 
 
+def gen_repair_case(rng, idx):
+    """a step fails for want of operands, exec supplies them, the session continues: the failed step must not have counted
+    (scripts at and next to the 201-operation limit make a double count visible)"""
+    sv = rng.choice([BASE, WITNESS_V0])
+    op, need = rng.choice([(OP_ADD, ['2', '3']), (OP_DROP, ['7']), (OP_DUP, ['5']), (OP_SWAP, ['1', '2']), (OP_EQUALVERIFY, ['9', '9']), (OP_SHA256, ['abcd']), (OP_TOALTSTACK, ['4']), (OP_VERIFY, ['1'])])
+    total = rng.choice([201, 201, 200, 199, 150, 30])
+    r = rng.randrange(0, min(total - 1, 60))
+    script = bytes([OP_NOP]) * r + bytes([op]) + bytes([OP_NOP]) * (total - r - 1) + bytes([OP_1])
+    return dict(script=script, stack=[], flags=STANDARD & ~F["CLEANSTACK"], sv=sv, k=r, toks=list(need), failing_step=True)
+
+
 def judge(c, evs, part):
     script, stack, flags, sv, k, toks = c['script'], c['stack'], c['flags'], c['sv'], c['k'], c['toks']
     wit = dict(script=script.hex(), stack=[x.hex() for x in stack], flags=flags, sv=sv, steps_before=k, exec=toks)
@@ -168,6 +179,26 @@ def judge(c, evs, part):
         if not e.ret or not lockstep.stacks_equal(it.stack, e.stack):
             part.inconc('prefix-differs(C01)')
             return
+    if c.get('failing_step'):
+        # the step before the exec FAILS (it executes nothing): exec then supplies what was missing and the session goes on
+        import copy
+        snap = copy.deepcopy(it)
+        try:
+            it.step()
+            part.inconc('planned-failing-step-succeeds')
+            return
+        except (ScriptFail, NumErr):
+            it = snap
+        if pos >= len(st) or st[pos][0] != 'S':
+            part.inconc('prefix-shorter-than-planned')
+            return
+        fe = st[pos][1]
+        pos += 1
+        if fe.ret:
+            part.inconc('planned-failing-step-succeeds(C01)')
+            return
+        wit['failing_step_before_exec'] = True
+        part.count('after_failed_step', 'n')
     pre = st[pos - 1][1]
     if pos >= len(st) or st[pos][0] != 'X':
         part.inconc('no-exec-event')
@@ -317,14 +348,16 @@ def worker(job):
     try:
         cases = []
         for i in range(n):
-            if i % 8 == 7:
+            if i % 16 == 3:
+                c = gen_repair_case(rng, i)
+            elif i % 8 == 7:
                 c = gen_sig_case(rng, i)
             else:
                 c = gen_case(rng, i)
                 c['toks'] = gen_tokens(rng, c['sv'], 0)
-            if 'weight' not in c and rng.random() < 0.3:
+            if 'weight' not in c and not c.get('failing_step') and rng.random() < 0.3:
                 c['toks0'] = rng.choice([['0000000000', 'OP_1ADD'], ['OP_0', 'OP_VERIFY'], ['ffffffff7f', 'OP_NEGATE'], ['0100', 'OP_NOT'], ['OP_1', 'OP_DROP'], ['OP_DEPTH'], ['OP_BOGUS'], gen_tokens(rng, c['sv'], 0)])
-            if 'weight' not in c and rng.random() < 0.03:
+            if 'weight' not in c and not c.get('failing_step') and rng.random() < 0.03:
                 c['toks'].insert(rng.randrange(len(c['toks']) + 1), rng.choice(['OP_BOGUS', 'zz', 'OP_', '12x', '0x12']))
             c['id'] = 'x%d.%d' % (idx, i)
             cmds = ['N ' + c['id'], 'SV %d' % c['sv'], 'FL %d' % c['flags'], 'SC %s' % hexs(c['script'])]
@@ -333,7 +366,7 @@ def worker(job):
             if c.get('weight') is not None:
                 cmds.append('XD - - %d' % c['weight'])
             cmds.append('SU')
-            cmds += ['S'] * c['k']
+            cmds += ['S'] * (c['k'] + (1 if c.get('failing_step') else 0))
             if c.get('toks0') is not None:
                 cmds.append('X ' + ' '.join((t.encode().hex() or '-') for t in c['toks0']))
             cmds.append('X ' + ' '.join((t.encode().hex() or '-') for t in c['toks']))
@@ -436,8 +469,8 @@ def main():
         for w in d['witnesses']:
             if not w or 'exec' not in w:
                 continue
-            c = dict(id='r', script=bytes.fromhex(w['script']), stack=[bytes.fromhex(x) for x in w['stack']], flags=w['flags'], sv=w['sv'], k=w['steps_before'], toks=w['exec'], weight=w.get('weight'), toks0=w.get('exec_before'))
-            cmds = ['N r', 'SV %d' % c['sv'], 'FL %d' % c['flags'], 'SC %s' % hexs(c['script'])] + (['ST ' + items(c['stack'])] if c['stack'] else []) + (['XD - - %d' % c['weight']] if c['weight'] is not None else []) + ['SU'] + ['S'] * c['k'] + \
+            c = dict(id='r', script=bytes.fromhex(w['script']), stack=[bytes.fromhex(x) for x in w['stack']], flags=w['flags'], sv=w['sv'], k=w['steps_before'], toks=w['exec'], weight=w.get('weight'), toks0=w.get('exec_before'), failing_step=w.get('failing_step_before_exec'))
+            cmds = ['N r', 'SV %d' % c['sv'], 'FL %d' % c['flags'], 'SC %s' % hexs(c['script'])] + (['ST ' + items(c['stack'])] if c['stack'] else []) + (['XD - - %d' % c['weight']] if c['weight'] is not None else []) + ['SU'] + ['S'] * (c['k'] + (1 if c.get('failing_step') else 0)) + \
                    (['X ' + ' '.join((t.encode().hex() or '-') for t in c['toks0'])] if c.get('toks0') is not None else []) + ['X ' + ' '.join((t.encode().hex() or '-') for t in c['toks']), 'CS']
             wd = scratch('c16r')
             events, crashes, hangs = run_harness_cases(bindir, [('r', cmds)], wd)
